@@ -58,9 +58,16 @@ def run(pid, tier, seed):
         for (_, comps, cls) in names:
             for _ in range(spellings):
                 words = [rng.choice(same_class.get(w, [w])) for w in comps]
+                # the leading, unrecognised component spelled with a byte that is not UTF-8 (Latin-1 "caf\xe9") in front of a name
+                # that has a type word: still unrecognised
+                nonutf = comps[0] == "foo" and "foo" not in comps[1:] and cls[0] not in ("text", "unparsable") and rng.random() < 0.5
+                if nonutf:
+                    words = ["\ue000" if c_ == "foo" else w_ for c_, w_ in zip(comps, words)]
                 mode = rng.choice([0, 0, 1, 2])
                 s = ".".join(spell(w, mode, rng) for w in words)
                 jl, jr = rng.choice(JUNK_L), rng.choice(JUNK_R)
+                if nonutf:
+                    jl = jr = ""      # (junk trimming works on the name as text; with undecodable bytes only the plain form is claimed)
                 if words[0] in ("log", "txt", "text") and len(words) == 1:
                     jl = jl.replace(".", "")
                 name = jl + s + jr
@@ -71,8 +78,9 @@ def run(pid, tier, seed):
                         want_r = "text" if text else "unparsable"
                     if want_r == "tar":
                         pass
-                    lines.append(json.dumps({"hex": name.encode().hex(), "text": text}))
-                    meta.append((name, comps, want_r, want_a, text))
+                    nb = name.encode().replace("\ue000".encode(), b"caf\xe9")
+                    lines.append(json.dumps({"hex": nb.hex(), "text": text}))
+                    meta.append((name if not nonutf else repr(nb), comps, want_r, want_a, text))
         # arbitrary names: termination without panic
         arb = [b".", b"..", b"...", b"....", b"", b".log", b"log.", b"~", b"-~,?;", b"a" * 4096, (b"x." * 2000) + b"gz",
                b"\xff\xfe.log", b"\xc3\x28.wtmp.gz", b"wtmp.\xff", b".gz", b".gz.gz.gz", b"1", b"1.2.3.4", b"tar", b".tar", b"a.tar.gz"]
